@@ -3,6 +3,7 @@ module gwverif
 go 1.17
 
 require (
+	github.com/mitchellh/mapstructure v1.4.1
 	github.com/nautilus/gateway v0.0.0
 	github.com/nautilus/graphql v0.0.26
 	github.com/vektah/gqlparser/v2 v2.5.16
@@ -12,7 +13,6 @@ require (
 	github.com/99designs/gqlgen v0.17.15 // indirect
 	github.com/agnivade/levenshtein v1.1.1 // indirect
 	github.com/graph-gophers/dataloader v5.0.0+incompatible // indirect
-	github.com/mitchellh/mapstructure v1.4.1 // indirect
 	github.com/opentracing/opentracing-go v1.2.0 // indirect
 	github.com/pkg/errors v0.9.1 // indirect
 	github.com/sirupsen/logrus v1.9.3 // indirect
